@@ -5,8 +5,11 @@ element type x implementation), gen/ctors.py every constructor signature. At pre
 TUs under build/C17/gen-<repo-hash>/, a -fsyntax-only pre-pass finds rows whose body does not compile (they become
 `uninstantiable/<signature>` entries instead of taking the TU down), and each stage links its shards with props/C17_main.cpp.
 One stage per GLM configuration (the build of a configuration is part of what is enumerated)."""
+import concurrent.futures as cf
 import hashlib
 import os
+import re
+import subprocess
 import sys
 
 import props
@@ -48,6 +51,52 @@ def pack(units, nshards):
 def render(prelude, rows):
     """rows: list of macro calls with the @ID@ placeholder."""
     return prelude + '\n'.join(code.replace('@ID@', str(i)) for i, code in enumerate(rows)) + '\n'
+
+
+def probe_full(text, flags, cmd):
+    """-fsyntax-only with every diagnostic kept (cached by content like vlib.syntax_probe). -> (ok, compiler output)"""
+    d = os.path.join(vlib.BUILD, PID, 'probe')
+    os.makedirs(d, exist_ok=True)
+    lim = ['-ferror-limit=0'] if 'clang' in cmd[0] else ['-fmax-errors=0']
+    full = list(cmd) + list(flags) + lim + ['-fsyntax-only', '-x', 'c++', '-']
+    marker = os.path.join(d, 'full-' + hashlib.sha256((text + ' '.join(full) + vlib.repo_hash()).encode()).hexdigest()[:20])
+    if os.path.exists(marker):
+        with open(marker) as f:
+            t = f.read()
+        return t.startswith('ok'), t[3:]
+    p = subprocess.run(full, input=text, stdout=subprocess.PIPE, stderr=subprocess.STDOUT, text=True, errors='replace')
+    ok = p.returncode == 0
+    out = '' if ok else p.stdout.replace(vlib.REPO, '<repo>')
+    with open(marker, 'w') as f:
+        f.write(('ok \n' if ok else 'no ' + out))
+    return ok, out
+
+
+def diagnose(prelude, rows, flags, cmd, rounds=10):
+    """Finds the rows of a shard whose body does not compile from the compiler's own diagnostics: every row is one line of
+    the probe text, and each error block names (in its instantiation notes) the row lines it came from. A template that failed
+    once is not diagnosed again for a later row, so the offending rows are blanked and the probe repeated until it is clean.
+    -> {row index: first error line} or None when the diagnostics cannot be attributed (caller falls back to splitting)."""
+    base = prelude.count('\n')
+    bad = {}
+    for _ in range(rounds):
+        text = prelude + '\n'.join(('//' if i in bad else c.replace('@ID@', str(i))) for i, (_, c) in enumerate(rows)) + '\n'
+        ok, out = probe_full(text, flags, cmd)
+        if ok:
+            return bad
+        found = 0
+        err = None
+        for line in out.splitlines():
+            if ' error: ' in line or ' error ' in line[:40]:
+                err = line.strip()[:300]
+            for m in re.finditer(r'<stdin>:(\d+):', line):
+                i = int(m.group(1)) - base - 1
+                if 0 <= i < len(rows) and i not in bad and err is not None:
+                    bad[i] = err
+                    found += 1
+        if not found:
+            return None
+    return None
 
 
 def find_uninstantiable(prelude, shards, failing, flags, cmd):
@@ -117,14 +166,27 @@ def generate(stage, family, plan_name, tier, prelude, fixed_deps):
     shards = pack(units, nshards)
     prelude = '// generated by gen/%s.py for stage %s (%s tier); fixed parts %s\n' % (mod.__name__.split('.')[-1], stage.name, tier, _dep_stamp(fixed_deps)) + prelude
     cmd, flags = stage.cmd, [f for f in stage.flags]
-    # 1. syntax-only pre-pass, one probe per shard; failing shards are taken apart
-    texts = [render(prelude, [c for u in sh for _, c in u['rows']]) for sh in shards]
-    res = vlib.syntax_probe(PID, {'%s-%d' % (stage.name, i): t for i, t in enumerate(texts)}, '', flags, cmd)
-    failing = [i for i in range(len(shards)) if not res['%s-%d' % (stage.name, i)][0]]
-    bad_rows, bad_units = {}, {}
-    if failing and vlib.syntax_probe(PID, {'base': prelude}, '', flags, cmd)['base'][0]:
-        # (when the fixed part alone does not compile the configuration itself is broken: the build fails and is reported)
-        bad_rows, bad_units = find_uninstantiable(prelude, shards, failing, flags, cmd)
+    # 1. syntax-only pre-pass: one probe per shard (all diagnostics kept); the rows named by the diagnostics are blanked and
+    #    the shard re-probed until it is clean
+    flat = [[(u, r) for u in sh for r in u['rows']] for sh in shards]
+    with cf.ThreadPoolExecutor(max_workers=vlib.NCPU) as ex:
+        diag = list(ex.map(lambda fl: diagnose(prelude, [r for _, r in fl], flags, cmd), flat))
+    bad_rows, bad_units, group_fail, per_unit = {}, {}, {}, {}
+    for si, dg in enumerate(diag):
+        for i, err in (dg or {}).items():
+            u, (name, _) = flat[si][i]
+            bad_rows[name] = err
+            per_unit.setdefault(u['key'], []).append(name)
+    unresolved = [si for si, dg in enumerate(diag) if dg is None]
+    if unresolved and vlib.syntax_probe(PID, {'base': prelude}, '', flags, cmd)['base'][0]:
+        # diagnostics could not be attributed to rows: split the shard instead. (When the fixed part alone does not compile
+        # the configuration itself is broken: the shards are written unchanged, the build fails and is reported.)
+        br, bad_units = find_uninstantiable(prelude, shards, unresolved, flags, cmd)
+        bad_rows.update(br)
+    # a family that fails (almost) everywhere in a unit is reported once, as a group
+    for key, names in per_unit.items():
+        if len(names) > MAX_LEAVES:
+            group_fail[key] = (len(names), bad_rows[names[0]])
     uninst = 0
     paths = []
     d = _gen_dir()
@@ -135,10 +197,15 @@ def generate(stage, family, plan_name, tier, prelude, fixed_deps):
                 rows.append('C17_UNINST(@ID@, %s, %s, %s)' % (u['kind'], cstr(u['group']), cstr('none of the sampled rows of this group of %d compiles: %s' % (len(u['rows']), bad_units[u['key']]))))
                 uninst += 1
                 continue
+            if u['key'] in group_fail:
+                n, err = group_fail[u['key']]
+                rows.append('C17_UNINST(@ID@, %s, %s, %s)' % (u['kind'], cstr(u['group']), cstr('%d of the %d rows of this group do not compile, e.g. %s' % (n, len(u['rows']), err))))
+                uninst += 1
             for name, code in u['rows']:
                 if name in bad_rows:
-                    rows.append('C17_UNINST(@ID@, %s, %s, %s)' % (u['kind'], cstr(name), cstr(bad_rows[name])))
-                    uninst += 1
+                    if u['key'] not in group_fail:
+                        rows.append('C17_UNINST(@ID@, %s, %s, %s)' % (u['kind'], cstr(name), cstr(bad_rows[name])))
+                        uninst += 1
                 else:
                     rows.append(code)
         p = os.path.join(d, '%s_%s_%02d.cpp' % (stage.name.replace('-', '_'), tier, i))
@@ -148,15 +215,27 @@ def generate(stage, family, plan_name, tier, prelude, fixed_deps):
     return paths
 
 
-def make_stage(name, family, plan_name, cmd, flags, prelude, thorough_only=False):
+def make_stage(pool, name, family, plan_name, cmd, flags, prelude, thorough_only=False):
     fixed = ['props/C17_swizzle_shard.cpp' if family == 'swizzle' else 'props/C17_ctor_shard.cpp', 'engine/ref/refc17.hpp', 'gen/swizzle.py' if family == 'swizzle' else 'gen/ctors.py']
     st = Stage(name, ['props/C17_main.cpp'], cmd=cmd, flags=flags, deps=fixed)
+    st.thorough_only = thorough_only
+    st.c17_generate = lambda tier: generate(st, family, plan_name, tier, prelude, fixed)
 
     def prebuild(stage, pid, tier):
-        stage.sources = ['props/C17_main.cpp'] + generate(stage, family, plan_name, tier, prelude, fixed)
+        # vlib runs the prebuild hooks one after the other; the first one starts the generators (and their syntax-only
+        # pre-passes) of every stage of this run concurrently, each hook then only waits for its own shards
+        if not pool['futures']:
+            only = sys.argv[sys.argv.index('--stage') + 1] if '--stage' in sys.argv[:-1] else None
+            todo = [s for s in pool['stages'] if (tier == 'thorough' or not s.thorough_only) and (only is None or s.name == only)]
+            if '--replay' in sys.argv or stage not in todo:
+                todo = [stage]
+            ex = cf.ThreadPoolExecutor(max_workers=len(todo))
+            pool['futures'] = {s.name: ex.submit(s.c17_generate, tier) for s in todo}
+        fut = pool['futures'].get(stage.name)
+        stage.sources = ['props/C17_main.cpp'] + (fut.result() if fut else stage.c17_generate(tier))
 
     st.prebuild = prebuild
-    st.thorough_only = thorough_only
+    pool['stages'].append(st)
     return st
 
 
@@ -164,14 +243,15 @@ def SPEC(tier):
     gxx = ['g++', '-O1'] + vlib.COMMON
     clang = ['clang++', '-O1'] + vlib.COMMON
     simd = ['-DGLM_FORCE_INTRINSICS', '-mavx2']
+    pool = {'stages': [], 'futures': None}
     stages = [
-        make_stage('swz-operator', 'swizzle', 'operator', clang, ['-DGLM_FORCE_SWIZZLE'] + simd, gen_swizzle.PRELUDE['operator']),
-        make_stage('swz-function', 'swizzle', 'function', gxx, ['-DGLM_FORCE_SWIZZLE'], gen_swizzle.PRELUDE['function']),
-        make_stage('ctor', 'ctor', 'default', gxx, [], gen_ctors.PRELUDE['default']),
-        make_stage('ctor-simd', 'ctor', 'simd', gxx, simd, gen_ctors.PRELUDE['simd']),
-        make_stage('ctor-wxyz', 'ctor', 'wxyz', gxx, ['-DGLM_FORCE_QUAT_DATA_WXYZ'], gen_ctors.PRELUDE['wxyz']),
-        make_stage('ctor-xyzw', 'ctor', 'xyzw', gxx, ['-DGLM_FORCE_QUAT_DATA_XYZW'], gen_ctors.PRELUDE['xyzw'], thorough_only=True),
-        make_stage('ctor-sse2', 'ctor', 'simd', gxx, ['-DGLM_FORCE_INTRINSICS', '-msse2'], gen_ctors.PRELUDE['simd'], thorough_only=True),
+        make_stage(pool, 'swz-operator', 'swizzle', 'operator', clang, ['-DGLM_FORCE_SWIZZLE'] + simd, gen_swizzle.PRELUDE['operator']),
+        make_stage(pool, 'swz-function', 'swizzle', 'function', gxx, ['-DGLM_FORCE_SWIZZLE'], gen_swizzle.PRELUDE['function']),
+        make_stage(pool, 'ctor', 'ctor', 'default', gxx, [], gen_ctors.PRELUDE['default']),
+        make_stage(pool, 'ctor-simd', 'ctor', 'simd', gxx, simd, gen_ctors.PRELUDE['simd']),
+        make_stage(pool, 'ctor-wxyz', 'ctor', 'wxyz', gxx, ['-DGLM_FORCE_QUAT_DATA_WXYZ'], gen_ctors.PRELUDE['wxyz']),
+        make_stage(pool, 'ctor-xyzw', 'ctor', 'xyzw', gxx, ['-DGLM_FORCE_QUAT_DATA_XYZW'], gen_ctors.PRELUDE['xyzw'], thorough_only=True),
+        make_stage(pool, 'ctor-sse2', 'ctor', 'simd', gxx, ['-DGLM_FORCE_INTRINSICS', '-msse2'], gen_ctors.PRELUDE['simd'], thorough_only=True),
     ]
     return {'stages': stages, 'build_failure_is_violation': True,
             'assumptions': props.COMMON_ASSUME + [
